@@ -663,3 +663,92 @@ class GenerateServices(_GenerateNames):
 class GenerateProcesses(_GenerateNames):
     qualname = GQ + "_generate_processes"
     field = "processes"
+
+
+# ---------------------------------------------------------------------------- _generate_privescs (partial correctness)
+# as _generate_exploits; the OS of the k-th escalation is pre-drawn (os_choices), every escalation grants ROOT
+
+PRIV_FIELDS = (("process", "name"), ("os", "name"), ("prob", "real"), ("cost", "real"), ("access", "int"))
+
+
+def priv_table_ok(I, d, count):
+    e = I.ext_state["gpe"]
+    if isinstance(d, PyDict):
+        zero = z3.is_int_value(z3.simplify(count)) and z3.simplify(count).as_long() == 0
+        return [("table-holds-the-escalations-added-so-far", z3.BoolVal(bool(zero and not d.d and not d.sym)))]
+    if not isinstance(d, RecDict):
+        return [("table-holds-the-escalations-added-so-far", z3.BoolVal(False))]
+    k = z3.Int("gpe_k")
+    col = lambda f: z3.Select(d.cols[f][0], k)
+    return [("one-entry-per-escalation-added", d.size == count),
+            ("entries-are-well-formed", z3.ForAll([k], z3.Implies(z3.Select(d.dom, k), z3.And(
+                0 <= col("process"), col("process") < e["nProc"],
+                z3.Or(col("os") == NONE_ID, z3.And(0 <= col("os"), col("os") < e["nOS"])),
+                col("prob") == e["p"], col("cost") == e["cost"], col("access") == 2))))]
+
+
+@loop_contract
+class PrivescOsChoicesLoop(LoopContract):
+    """`while True:` redraw the OS choices until they cover every OS (or contain None); nothing is carried between rounds"""
+    qualname = GQ + "_generate_privescs"
+    ordinal = 0
+    tags = ("C15",)
+
+    def snapshot(self, I, fr, seq):
+        return {}
+
+    def havoc(self, I, fr, entry, seq):
+        for v in loop_assigned(self.st):
+            fr.locals.pop(v, None)
+
+    def inv(self, I, fr, entry, seq, k):
+        return []
+
+
+@loop_contract
+class GeneratePrivescsLoop(GenerateExploitsLoop):
+    qualname = GQ + "_generate_privescs"
+    ordinal = 1
+
+    def havoc(self, I, fr, entry, seq):
+        A = z3.ArraySort
+        srt = {"name": I_, "int": I_, "real": R_}
+        cols = {f: (I.ctx.fresh("gpe_" + f, A(I_, srt[k])), k) for f, k in PRIV_FIELDS}
+        for v in loop_assigned(self.st):
+            fr.locals.pop(v, None)
+        fr.locals[entry["table"]] = RecDict(I.ctx.fresh("gpe_dom", A(I_, B_)), cols, I.ctx.fresh("gpe_size", I_), fresh=True,
+                                            label=entry["table"])
+        fr.locals[entry["counter"]] = SymV(I.ctx.fresh("gpe_added", I_), "int")
+
+    def inv(self, I, fr, entry, seq, k):
+        e = I.ext_state["gpe"]
+        added = ival(fr.locals[entry["counter"]])
+        return [("counter-in-range", z3.And(0 <= added, added <= e["n"]))] + priv_table_ok(I, fr.locals[entry["table"]], added)
+
+
+@contract
+class GeneratePrivescs(Contract):
+    may_draw = True
+    qualname = GQ + "_generate_privescs"
+    callable_by_contract = False
+    bounded = False
+    tags = {"": ("C15",)}
+
+    def setup(self, I, variant):
+        n, nProc, nOS = z3.Int("num_privescs"), z3.Int("gen_nProc"), z3.Int("gen_nOS")
+        p, cost = z3.Real("privesc_prob"), z3.Real("privesc_cost")
+        I.ctx.assume(z3.And(n >= 1, nProc >= 1, nOS >= 1, p > 0, p <= 1))
+        I.ext_state["gpe"] = {"n": n, "nProc": nProc, "nOS": nOS, "p": p, "cost": cost}
+        g = gen_obj(I, processes=gen_names(nProc, "processes"), os=gen_names(nOS, "os"))
+        S = Scope()
+        S.a = {"self": g}
+        S.call_args = ([g, SymV(n, "int"), SymV(cost, "real"), SymV(p, "real")], {})
+        return S
+
+    def modifies(self, I, S):
+        return [S.a["self"]]
+
+    def ensures(self, I, S):
+        d = S.a["self"].fields.get("privescs")
+        e = I.ext_state["gpe"]
+        return [("C15.privescs-" + l, t) for l, t in priv_table_ok(I, d, e["n"])]
